@@ -526,6 +526,7 @@ func abstractRun(a *absCtx, r *ScenarioRun, drvDir string) ([]map[string]any, er
 				}
 				rec["mfail"] = mf
 				rec["lossless"] = losslessJSON(a, st, e, logKind(logs))
+				rec["nm"] = len(st.Matchers)
 				rec["bufsame"] = true
 				if st.Val != nil && (st.Val.K == "bytes" || st.Val.K == "rawmsg") && e.Buf != "" {
 					rec["bufsame"] = e.Buf == st.Val.B64
